@@ -34,7 +34,7 @@ namespace igris
 
         void resize(size_t sz)
         {
-            buffer.resize(sz);
+            buffer.resize(sz + 1); // one slot always stays free
             ring_init(&r, sz + 1);
         }
 
